@@ -25,6 +25,12 @@ func New[T any](cap int, cmp func(T, T) bool) Heap[T] {
 
 // Init initializes a heap with the given elements and compare function.
 func (h *Heap[T]) Init(s []T, cmp func(T, T) bool) {
+	// elements still held leave the heap: their handles must not act on the new content
+	for _, e := range h.values {
+		e.heap = nil
+		e.index = -1
+	}
+
 	values := make([]*Element[T], len(s))
 	for i, v := range s {
 		values[i] = &Element[T]{Value: v, heap: h, index: i}
